@@ -274,7 +274,19 @@ func layoutWorld(src *choice.Src, w *World, cfg *gen.Cfg, o WOpts, post []postMu
 		}
 		return "./" + strings.Replace(p, "/", "//", 1)
 	}
-	switch src.Draw("layoutfaultk", 11) {
+	switch src.Draw("layoutfaultk", 13) {
+	case 11: // two links that point at each other among the matches (every access: too many levels of symbolic links)
+		w.Files = append(w.Files, InFile{Path: filepath.Dir(first) + "/06_loop_a.yaml", Kind: "link-loop"})
+		if !matchedByAny(w.Patterns, filepath.Dir(first)+"/06_loop_a.yaml") {
+			w.Patterns = append(w.Patterns, filepath.Dir(first)+"/06_loop_a.yaml")
+		}
+		w.Class = "env:input-link-loop"
+	case 12: // a link whose target runs through a regular file (not a directory)
+		w.Files = append(w.Files, InFile{Path: filepath.Dir(first) + "/06_through_file.yaml", Kind: "link-through-file"})
+		if !matchedByAny(w.Patterns, filepath.Dir(first)+"/06_through_file.yaml") {
+			w.Patterns = append(w.Patterns, filepath.Dir(first)+"/06_through_file.yaml")
+		}
+		w.Class = "env:input-link-through-file"
 	case 9: // a dangling symbolic link among the matches of a pattern that also matches good files
 		w.Files = append(w.Files, InFile{Path: filepath.Dir(first) + "/05_dangling.yaml", Kind: "dangling-link"})
 		if !matchedByAny(w.Patterns, filepath.Dir(first)+"/05_dangling.yaml") {
